@@ -443,6 +443,32 @@ func (m *Method) RetType(recvClass string, recvElems []string) (rendering string
 		}
 		parts = append(parts, r...)
 	}
+	// ti keeps one Array variant: several array alternatives are merged into one array of all element types
+	var elems []string
+	nArr := 0
+	for _, p := range parts {
+		if strings.HasPrefix(p, "Array<") && !strings.Contains(p[6:], "<") {
+			nArr++
+			elems = append(elems, strings.Fields(p[6:len(p)-1])...)
+		}
+	}
+	if nArr > 1 {
+		var rest []string
+		for _, p := range parts {
+			if !(strings.HasPrefix(p, "Array<") && !strings.Contains(p[6:], "<")) {
+				rest = append(rest, p)
+			}
+		}
+		se := map[string]bool{}
+		var ue []string
+		for _, e := range elems {
+			if !se[e] {
+				se[e] = true
+				ue = append(ue, e)
+			}
+		}
+		parts = append([]string{"Array<" + strings.Join(ue, " ") + ">"}, rest...)
+	}
 	// dedupe, keep order
 	seen := map[string]bool{}
 	var u []string
